@@ -131,13 +131,98 @@ example : OpsOk demoPlacement [hA, hB] demoOps := by
 
 -- what the two clients see, and that the callback ran on the issuing host B with the client's 9
 example : seenBy sA (runSync (Cluster.init [hA, hB] hW) demoOps).2 =
-    [.event nsR (.str ['e', '1']) [.int 1] false, .event nsR (.str ['e', '3']) [] true] := by decide
+    [.event nsR (.str ['e', '1']) [.int 1] false, .event nsR (.str ['e', '3']) [] true] := by rfl
 example : seenBy sB (runSync (Cluster.init [hA, hB] hW) demoOps).2 =
     [.event nsR (.str ['e', '1']) [.int 1] false, .event nsR (.str ['e', '2']) [] false,
-     .disconnect nsR] := by decide
+     .disconnect nsR] := by rfl
 example : (runSync (Cluster.init [hA, hB] hW) demoOps).2.filter isCallbackOut =
-    [.callback hB 7 [.int 9]] := by decide
+    [.callback hB 7 [.int 9]] := by rfl
 example : appEvents (runSync (Cluster.init [hA, hB] hW) demoOps).2 =
-    appEvents (Single.run Single.init demoOps).2 := by decide
+    appEvents (Single.run Single.init demoOps).2 := by rfl
+
+/-! ## eligible — who receives an emit when a host applies it -/
+
+/-- **Exactly the eligible clients, once each, at the moment of application.**  When host `h`
+    applies another host's emit (at whatever moment its listener gets to it), a client of `h`
+    receives the event exactly once if, on `h` at that moment, it is connected to the namespace, is
+    a member of an addressed room and is not skipped — and otherwise not at all. -/
+theorem eligible (h : Host) (hinv : Inv h.rooms) (o : HostId) (ev : Str) (d : Data) (ns : Ns)
+    (to : Target) (skip : Skip) (cb : Option (Str × Ns × Nat)) (ho : o ≠ h.id) (hok : Target.ok to)
+    (sid : Sid) :
+    ((C03.connected h.rooms ns sid ∧ C03.addressedBy h.rooms ns sid to ∧ sid ∉ skip.toList) →
+      seenBy sid (listenMsg h (.emit o ev d ns to skip cb)).outs =
+        [Seen.event ns (.str ev) d.pack cb.isSome]) ∧
+    (¬ (C03.connected h.rooms ns sid ∧ C03.addressedBy h.rooms ns sid to ∧ sid ∉ skip.toList) →
+      seenBy sid (listenMsg h (.emit o ev d ns to skip cb)).outs = []) := by
+  have he := (listenMsg_effect h hinv (.emit o ev d ns to skip cb) rfl
+    (fun _ _ _ _ _ _ _ heq => by cases heq; exact hok)).2.2.2.2.1 sid
+  rw [he]
+  simp only [seenAfter, if_neg ho, seenEmit]
+  have hiff := C03.recipients_exact hinv ns to skip.toList sid
+  exact ⟨fun hx => by rw [if_pos (hiff.mpr hx)], fun hx => by rw [if_neg (fun hc => hx (hiff.mp hc))]⟩
+
+/-- the same on the issuing host, which applies the emit to its own clients before publishing -/
+theorem eligible_local (h : Host) (hinv : Inv h.rooms) (ev : Str) (d : Data) (ns : Ns)
+    (to : Target) (skip : Skip) (cb : Option Nat) (hok : Target.ok to)
+    (hcb : cb.isSome → ∃ r, to = .one r) (sid : Sid) :
+    ((C03.connected h.rooms ns sid ∧ C03.addressedBy h.rooms ns sid to ∧ sid ∉ skip.toList) →
+      seenBy sid (apiEmit h true ev d ns to skip cb).outs =
+        [Seen.event ns (.str ev) d.pack cb.isSome]) ∧
+    (¬ (C03.connected h.rooms ns sid ∧ C03.addressedBy h.rooms ns sid to ∧ sid ∉ skip.toList) →
+      seenBy sid (apiEmit h true ev d ns to skip cb).outs = []) := by
+  rw [(apiEmit_effect h hinv ev d ns to skip cb hok hcb).2.2.2.2.2.1 sid]
+  simp only [seenEmit]
+  have hiff := C03.recipients_exact hinv ns to skip.toList sid
+  exact ⟨fun hx => by rw [if_pos (hiff.mpr hx)], fun hx => by rw [if_neg (fun hc => hx (hiff.mp hc))]⟩
+
+/-- a host never applies its own emit a second time: the echo is dropped -/
+theorem own_echo_dropped (h : Host) (m : Msg) (hm : m.isCb = false) (ho : m.origin = some h.id) :
+    listenMsg h m = { h := h } := listenMsg_own h m hm ho
+
+/-! ## remote_ops_local_effect -/
+
+/-- **A published `enter_room` / `leave_room` / `disconnect` changes state only on the host where
+    the session is connected**: everywhere else the entry is a no-op. -/
+theorem remote_ops_local_effect (h : Host) (o : HostId) (sid : Sid) (ns : Ns)
+    (room : Room) (hn : h.connected ns sid = false) :
+    listenMsg h (.enterRoom o sid ns room) = { h := h } ∧
+    listenMsg h (.leaveRoom o sid ns room) = { h := h } ∧
+    listenMsg h (.disconnect o sid ns) = { h := h } := by
+  have hq : eioOf h.rooms ns sid = none := by
+    simpa [Host.connected] using hn
+  by_cases ho : o = h.id
+  · refine ⟨listenMsg_own h _ rfl (by simp [Msg.origin, ho]), listenMsg_own h _ rfl (by simp [Msg.origin, ho]),
+      listenMsg_own h _ rfl (by simp [Msg.origin, ho])⟩
+  · refine ⟨?_, ?_, ?_⟩
+    · have hd := dispatch_enterRoom h o sid ns room ho
+      rw [hq] at hd
+      rw [listenMsg_eq_dispatch (by rw [hd]), hd]
+    · have hd := dispatch_leaveRoom h o sid ns room ho
+      rw [hn] at hd
+      rw [listenMsg_eq_dispatch (by rw [hd]; rfl), hd]; rfl
+    · have hd := dispatch_disconnect h o sid ns ho
+      have hl : localDisconnect h sid ns = { h := h } := by simp [localDisconnect, hq]
+      rw [listenMsg_eq_dispatch (by rw [hd, hl]), hd, hl]
+
+/-- ... and where it is connected, it has the effect of the local operation -/
+theorem remote_ops_effect_where_connected (h : Host) (hinv : Inv h.rooms) (o : HostId) (ho : o ≠ h.id)
+    (sid : Sid) (ns : Ns) (room : Room) :
+    (listenMsg h (.enterRoom o sid ns room)).h.rooms = enterLocal h.rooms ns sid room ∧
+    (listenMsg h (.leaveRoom o sid ns room)).h.rooms = Rooms.leave h.rooms ns sid (some room) ∧
+    (listenMsg h (.disconnect o sid ns)).h.rooms = Rooms.disconnect h.rooms ns sid ∧
+    (listenMsg h (.closeRoom o ns room)).h.rooms = Rooms.closeRoom h.rooms ns room := by
+  have e1 := (listenMsg_effect h hinv (.enterRoom o sid ns room) rfl (fun _ _ _ _ _ _ _ heq => by cases heq)).1
+  have e2 := (listenMsg_effect h hinv (.leaveRoom o sid ns room) rfl (fun _ _ _ _ _ _ _ heq => by cases heq)).1
+  have e3 := (listenMsg_effect h hinv (.disconnect o sid ns) rfl (fun _ _ _ _ _ _ _ heq => by cases heq)).1
+  have e4 := (listenMsg_effect h hinv (.closeRoom o ns room) rfl (fun _ _ _ _ _ _ _ heq => by cases heq)).1
+  simp only [roomsAfter, if_neg ho] at e1 e2 e3 e4
+  exact ⟨e1, e2, e3, e4⟩
+
+-- non-vacuity: after the demo history `sA` lives on host A only; an `enter_room` for it published
+-- by B changes A and nothing on B
+def demoCluster : Cluster := (runSync (Cluster.init [hA, hB] hW) (demoOps.take 4)).1
+example : (demoCluster.hosts.map (fun h => h.connected nsR sA)) = [true, false] := by decide
+example : (demoCluster.hosts.map (fun h => (listenMsg h (.enterRoom hW sA nsR ['q'])).h.rooms.length))
+    = [4, 3] := by decide
 
 end Sio.C07
